@@ -176,4 +176,14 @@ inductive Built (reg : Registry) : Forest → (Loc → Option Nat) → Prop
           prov' loc' = none) →
       Built reg (fixAll f) prov'
 
+/-- Go: `Modules.FindModuleByNamespace(ns)` as a function of the namespace asked for (the name of
+the module found, `none` = error).  `Model.instantiatingModuleAt` is this function applied to
+`namespaceAt` (Lemmas/ConfigNs `instantiatingModuleAt_eq_findByNamespace`).  The comparison with
+the declared namespaces is equality of strings: a spelling that no loaded module declares exactly
+(other letter case, a trailing slash or blank, another percent-encoding, a prefix) finds nothing. -/
+def findByNamespace (reg : Registry) (ns : String) : Option String :=
+  match reg.distinctModules.filter (fun m => (m.stmt.argOf? "namespace").getD "" == ns) with
+  | [] => none
+  | m :: rest => if rest.all (·.name == m.name) then some m.name else none
+
 end Goyang.Spec.ConfigNs
